@@ -227,9 +227,20 @@ def drive(strategy, body, seed, max_examples, acc, shrink=True, shallow=(os.envi
             pass
         acc.violations.extend(vios)
 
+    def _excluded():
+        try:
+            from ..model import gen as _gen
+            for k, n in _gen.EXCLUDED.items():
+                acc.label("excluded by construction: " + k, n)
+            _gen.EXCLUDED.clear()
+        except Exception:
+            pass
+
     try:
         test()
+        _excluded()
     except Found:
+        _excluded()
         _finish()
     except (Flaky, FlakyFailure):
         if "vios" in last:
